@@ -2,6 +2,7 @@ package engine
 
 import (
 	"fmt"
+	"go/types"
 	"sort"
 	"strings"
 
@@ -129,4 +130,122 @@ func (e *Engine) writerClosure(pc *PropertyCheck, prop, module string) {
 	pc.Extra[prop+"_entry_points"] = entries
 	pc.Extra[prop+"_outside_the_claim (genesis, migrations, upgrades)"] = uniq(excluded)
 	_ = fmt.Sprint
+}
+
+// stableFieldsScan checks the `stablefields` declarations of the packages whose contracts serve
+// this property: a listed field of the type is stored to, the whole object is overwritten
+// through a pointer, or the pointer is handed to an unmarshaller, only inside the declared
+// writers. Objects the function has just allocated itself (locals, composite literals) are
+// not shared yet and may be initialised freely.
+func (e *Engine) stableFieldsScan(pc *PropertyCheck) {
+	used := map[string]bool{}
+	for _, ct := range e.Specs.Contracts {
+		if contractServes(ct, pc.ID) {
+			used[ct.PkgPath] = true
+		}
+	}
+	f := e.Frames()
+	for _, sd := range e.Specs.Stable {
+		if !used[sd.PkgPath] {
+			continue
+		}
+		name := shortPath(sd.PkgPath) + ".stablefields:" + sd.Type
+		t, err := e.Env.LookupType(sd.PkgPath, sd.Type)
+		if err != nil {
+			pc.Outcomes = append(pc.Outcomes, &Outcome{Name: name, Status: "failed", Kind: "scan", Detail: err.Error()})
+			continue
+		}
+		st, ok := t.Underlying().(*types.Struct)
+		if !ok {
+			pc.Outcomes = append(pc.Outcomes, &Outcome{Name: name, Status: "failed", Kind: "scan", Detail: "not a struct type"})
+			continue
+		}
+		stable := map[int]bool{}
+		for i := 0; i < st.NumFields(); i++ {
+			for _, fn := range sd.Fields {
+				if st.Field(i).Name() == fn {
+					stable[i] = true
+				}
+			}
+		}
+		if len(stable) != len(sd.Fields) {
+			pc.Outcomes = append(pc.Outcomes, &Outcome{Name: name, Status: "failed", Kind: "scan", Detail: "a listed field does not exist"})
+			continue
+		}
+		writers := map[string]bool{}
+		for _, w := range sd.Writers {
+			writers[w] = true
+		}
+		isT := func(pt types.Type) bool {
+			p, ok := pt.Underlying().(*types.Pointer)
+			return ok && types.Identical(p.Elem(), t)
+		}
+		local := func(v ssa.Value) bool {
+			for {
+				switch x := v.(type) {
+				case *ssa.Alloc:
+					return true
+				case *ssa.FieldAddr:
+					v = x.X
+				case *ssa.IndexAddr:
+					v = x.X
+				default:
+					return false
+				}
+			}
+		}
+		var bad []string
+		sites := 0
+		for _, fn := range f.funcs {
+			root := rootFn(fn)
+			if isTestOrMock(pkgOfFn(root)) || strings.HasSuffix(e.Prog.Fset.Position(root.Pos()).Filename, "_test.go") || strings.HasSuffix(e.Prog.Fset.Position(root.Pos()).Filename, ".pb.go") {
+				continue
+			}
+			key := sym.FuncKey(root)
+			for _, b := range fn.Blocks {
+				for _, ins := range b.Instrs {
+					hit := ""
+					switch x := ins.(type) {
+					case *ssa.Store:
+						if fa, ok := x.Addr.(*ssa.FieldAddr); ok && isT(fa.X.Type()) && stable[fa.Field] && !local(fa.X) {
+							hit = "assigns ." + st.Field(fa.Field).Name()
+						} else if isT(x.Addr.Type()) && !local(x.Addr) {
+							hit = "overwrites the whole object"
+						}
+					case ssa.CallInstruction:
+						cc := x.Common()
+						cn := ""
+						if cc.IsInvoke() {
+							cn = cc.Method.Name()
+						} else if sf, ok := cc.Value.(*ssa.Function); ok {
+							cn = sf.Name()
+						}
+						if strings.Contains(cn, "Unmarshal") {
+							for _, a := range cc.Args {
+								if mi, ok := a.(*ssa.MakeInterface); ok {
+									a = mi.X
+								}
+								if isT(a.Type()) && !local(a) {
+									hit = "unmarshals into the object"
+								}
+							}
+						}
+					}
+					if hit != "" {
+						sites++
+						if !writers[key] {
+							bad = append(bad, shortPkg(root)+"."+key+" "+hit)
+						}
+					}
+				}
+			}
+		}
+		sort.Strings(bad)
+		o := &Outcome{Name: name, Kind: "scan", Status: "discharged", Detail: fmt.Sprintf("fields %v of shared %s objects are assigned only in %v (%d sites)", sd.Fields, sd.Type, sd.Writers, sites)}
+		if len(bad) > 0 {
+			o.Status = "failed"
+			o.Detail = "also written in: " + strings.Join(uniq(bad), "; ")
+		}
+		pc.Outcomes = append(pc.Outcomes, o)
+	}
 }
